@@ -10,7 +10,7 @@ from vcheck import log
 
 # (family, runs, steps)
 PLANS = {
-    "C01": dict(models=dict(quick=[("MC_HRaft.tla", "MC_Election_q.cfg", 300)], thorough=[("MC_HRaft.tla", "MC_Election.cfg", 900), ("MC_HRaft.tla", "MC_Crash.cfg", 900)]), families=dict(quick=[("chaos", 24, 500), ("elect", 24, 400), ("voterestart", 8, 0), ("stalerepl", 4, 0), ("phases", 10, 0)], thorough=[("chaos", 160, 800), ("elect", 200, 600), ("member", 80, 500), ("voterestart", 48, 0), ("stalerepl", 24, 0), ("phases", 64, 0)])),
+    "C01": dict(models=dict(quick=[("MC_HRaft.tla", "MC_Election_q.cfg", 300)], thorough=[("MC_HRaft.tla", "MC_Election.cfg", 900), ("MC_HRaft.tla", "MC_Crash.cfg", 900)]), families=dict(quick=[("chaos", 24, 500), ("elect", 24, 400), ("voterestart", 8, 0), ("stalerepl", 4, 0), ("fastpathrace", 8, 0), ("phases", 10, 0)], thorough=[("chaos", 160, 800), ("elect", 200, 600), ("member", 80, 500), ("voterestart", 48, 0), ("stalerepl", 24, 0), ("fastpathrace", 48, 0), ("phases", 64, 0)])),
     "C02": dict(models=dict(quick=[("MC_HRaft.tla", "MC_Replication_q.cfg", 300)], thorough=[("MC_HRaft.tla", "MC_Replication.cfg", 900), ("MC_HRaft.tla", "MC_Snapshot_q.cfg", 900)]), families=dict(quick=[("chaos", 16, 500), ("snap", 24, 500), ("client", 8, 400), ("restoreinflight", 12, 0), ("dupis", 9, 500), ("snapcfgrace", 16, 0), ("staleprefix", 4, 0), ("phases", 10, 0)], thorough=[("chaos", 120, 800), ("snap", 200, 800), ("client", 80, 600), ("restart", 80, 600), ("restoreinflight", 96, 0), ("restore", 60, 500), ("dupis", 48, 500), ("snapcfgrace", 96, 0), ("snapmember", 60, 500), ("staleprefix", 32, 0), ("phases", 64, 0)])),
     "C03": dict(models=dict(quick=[("MC_HRaft.tla", "MC_Replication_q.cfg", 300)], thorough=[("MC_HRaft.tla", "MC_Replication.cfg", 900), ("MC_HRaft.tla", "MC_Crash.cfg", 900)]), families=dict(quick=[("chaos", 24, 500), ("restart", 16, 400), ("figure8", 40, 0), ("dupis", 9, 500), ("stalerepl", 6, 0), ("phases", 10, 0)], thorough=[("chaos", 200, 800), ("restart", 120, 600), ("member", 60, 500), ("figure8", 64, 0), ("dupis", 48, 500), ("stalerepl", 32, 0), ("phases", 64, 0)])),
     "C04": dict(models=dict(quick=[("MC_HRaft.tla", "MC_Dup_q.cfg", 300)], thorough=[("MC_HRaft.tla", "MC_Replication.cfg", 900), ("MC_HRaft.tla", "MC_Dup_q.cfg", 600)]), families=dict(quick=[("chaos", 16, 500), ("snap", 12, 400)], thorough=[("chaos", 200, 800), ("snap", 120, 600), ("restart", 80, 600)]), suites=["l2:ae"]),
@@ -26,7 +26,7 @@ PLANS = {
     "C14": dict(models=dict(quick=[("MC_HRaft.tla", "MC_Election_q.cfg", 300)], thorough=[("MC_HRaft.tla", "MC_Election.cfg", 900)]), families=dict(quick=[("prevote", 30, 0), ("elect", 12, 400), ("prevoteterm", 6, 0)], thorough=[("prevote", 240, 0), ("elect", 120, 600), ("chaos", 60, 600), ("prevoteterm", 32, 0)])),
     "C16": dict(families=dict(quick=[], thorough=[]), suites=["comp:nettrans"]),
     "C17": dict(models=dict(quick=[("Lifecycle.tla", "Lifecycle_repaired.cfg", 120), ("Lifecycle.tla", "Lifecycle_asis.cfg", 120, "NoStrandedCaller")], thorough=[("Lifecycle.tla", "Lifecycle_repaired.cfg", 300), ("Lifecycle.tla", "Lifecycle_asis.cfg", 120, "NoStrandedCaller"), ("Lifecycle.tla", "Lifecycle_unbuffered.cfg", 120, "NoStrandedCaller")]), families=dict(quick=[("lifecycle", 32, 400), ("restoreinflight", 8, 0), ("transferhang", 6, 0)], thorough=[("lifecycle", 240, 600), ("client", 60, 500), ("restore", 60, 400), ("restoreinflight", 48, 0), ("transferhang", 36, 0), ("phases", 48, 0)])),
-    "C18": dict(families=dict(quick=[("notify", 32, 400), ("notifyshort", 8, 0)], thorough=[("notify", 240, 600), ("elect", 80, 500), ("notifyshort", 48, 0), ("phases", 48, 0)])),
+    "C18": dict(families=dict(quick=[("notify", 32, 400), ("notifyshort", 8, 0), ("fastpathrace", 6, 0)], thorough=[("notify", 240, 600), ("elect", 80, 500), ("notifyshort", 48, 0), ("fastpathrace", 32, 0), ("phases", 48, 0)])),
     "C15": dict(families=dict(quick=[], thorough=[]), suites=["comp:filesnap", "strace:filesys"]),
     "C19": dict(families=dict(quick=[], thorough=[]), suites=["comp:logcache"]),
     "C20": dict(families=dict(quick=[("restore", 24, 400), ("restoreinflight", 16, 0)], thorough=[("restore", 240, 600), ("restoreinflight", 128, 0)])),
@@ -140,8 +140,9 @@ def run(pid, tier, seed):
     mine = [v for v in res["viols"] if v["prop"] == pid]
     others = [v for v in res["viols"] if v["prop"] != pid]
     new, seen_known = [], {}
+    kctx = vcheck.known_context(res["viols"])
     for v in mine:
-        k = vcheck.match_known(v, known)
+        k = vcheck.match_known(v, known, kctx)
         if k:
             seen_known.setdefault(k["id"], (k, v))
         else:
@@ -149,7 +150,7 @@ def run(pid, tier, seed):
     for kid, (k, v) in sorted(seen_known.items()):
         what = re.sub(r"^open: property=C\d+ ", "", k.get("line", k["what"]))
         log("KNOWN-FINDING: property=%s %s [%s] e.g. %s line %d (%s)" % (pid, what, kid, os.path.relpath(v["file"], vcheck.ROOT), v["line"], v["pred"]))
-    others = [v for v in others if not vcheck.match_known(v, known)]
+    others = [v for v in others if not vcheck.match_known(v, known, kctx)]
     for v in others[:10]:
         log("NOTE other-property predicate %s/%s false at %s line %d (judged by that property's own check)" % (v["prop"], v["pred"], os.path.basename(v["file"]), v["line"]))
     nc_kinds = {}
